@@ -19,6 +19,7 @@ RULE = (
     "is None iff assignable; and for literal objects the lines `x: T = <lit>` / `takes(<lit>)` inside a "
     "function are diagnosed iff not a member. Non-trivial = type(o) is related to the outer constructor of T "
     "(verdict depends on contents); distinct by (o source, T source)."
+    ' Universe and grammar include instances and types of subclasses of float and int (promotion applies to them) and the Unpack spelling of variadic tuples.'
 )
 ASSUMPTIONS = [
     "membership model pv/member.py (never calls can_assign); Unknown verdicts are skipped and counted",
